@@ -52,7 +52,14 @@ func (g *fgen) call(in ssa.CallInstruction, st *state) []val {
 		return g.callInner(in, st)
 	}
 	g.assertGinvs(st, "ginv-call", g.siteLabel(in.Pos(), "call"), in.Pos())
+	var before *state
+	if len(g.stackLocals) > 0 {
+		before = st.clone()
+	}
 	rs := g.callInner(in, st)
+	if before != nil {
+		g.restoreStackLocals(before, st)
+	}
 	g.assumeGinvs(st)
 	return rs
 }
@@ -141,6 +148,20 @@ func (g *fgen) callInner(in ssa.CallInstruction, st *state) []val {
 
 func (g *fgen) applyModset(ms *modset, st *state, who string) {
 	if ms.all {
+		keep := map[string]string{}
+		for k := range ms.preserve {
+			if me, ok := ms.preserveEntries[k]; ok {
+				me.register(g, k)
+			}
+			if _, known := g.heapSort[k]; known {
+				keep[k] = g.read(st, k)
+			}
+		}
+		defer func() {
+			for k, v := range keep {
+				st.heap[k] = v
+			}
+		}()
 		if ms.heapOnly {
 			g.havocHeap(st)
 			for k, me := range ms.any {
